@@ -22,6 +22,8 @@ func runC15(ctx *core.Ctx) {
 	ctx.Rule("X2", "no overwrite: the flag constant of the os.OpenFile that creates an entry contains O_CREATE|O_EXCL and not O_TRUNC", 1)
 	ctx.Rule("X3", "exact content: the only write to the created file is the Data of the same entry, and every success path checks both the write error and the close error", 2)
 	ctx.Rule("X4", "txtar-x passes the parsed archive unchanged to Write and exits non-zero when Write fails", 2)
+	needsQuoteExact(ctx, "X7", "X8")
+	unquoteShape(ctx, "X9")
 	ctx.Rule("X6", "txtar-c records what it quoted: wherever a file body is replaced by its quoted form, the archive comment is extended (append onto its previous value) by a line 'unquote <path>' whose path is the same root-relative name that becomes the entry's Name, on every path to the entry being added; txtar-x's reader restores quoted files from exactly these lines", 1)
 	ctx.Rule("X5", "txtar-c: entry names are made relative to the walked root and slash-normalised; a final newline is appended only to non-empty data that lacks one", 2)
 	p := ctx.P
@@ -416,7 +418,27 @@ func runC15(ctx *core.Ctx) {
 					return nn == "strings.TrimPrefix" || nn == "path/filepath.Rel"
 				}, nil)
 			}
-			ctx.Check(okName && rel, "X5", "txtar-c.main$1#name", st.Pos(), "entry name is ToSlash of a root-relative path (ToSlash=%v, relative=%v)", okName, rel)
+			// the prefix removed is the root *with its separator* (or filepath.Rel is used): removing the
+			// bare root "." strips the leading dot of .gitignore, and "a" eats into "ab/x"
+			unit := false
+			if okName {
+				ssax.DerivedFrom(c.Call.Args[0], func(v ssa.Value) bool {
+					cc, ok := v.(*ssa.Call)
+					if !ok {
+						return false
+					}
+					switch ssax.CalleeName(&cc.Call) {
+					case "path/filepath.Rel":
+						unit = true
+					case "strings.TrimPrefix", "strings.CutPrefix":
+						if b, ok := cc.Call.Args[1].(*ssa.BinOp); ok && b.Op == token.ADD {
+							unit = true
+						}
+					}
+					return false
+				}, func(cc *ssa.Call) bool { return strings.HasPrefix(ssax.CalleeName(&cc.Call), "strings.") })
+			}
+			ctx.Check(okName && rel && unit, "X5", "txtar-c.main$1#name", st.Pos(), "entry name is ToSlash of a root-relative path (ToSlash=%v, relative=%v, root removed together with its separator=%v)", okName, rel, unit)
 		})
 		if n == 0 {
 			ctx.Unknown("X5", "txtar-c.main$1#name", m.Pos(), "no store to File.Name found")
